@@ -416,11 +416,11 @@ Definition nooctal (r : list N) : bool := match r with c :: _ => negb (octal_dig
 Lemma nooctal_follows r : nooctal r = true <-> no_octal_follows r.
 Proof. destruct r as [|c r]; cbn; [tauto|]. rewrite negb_true_iff. tauto. Qed.
 Lemma sp_legacy_octal_sound a r1 r : sp_legacy_octal (a :: r1) = (true, r) -> ((a =? 48) && negb (starts_digit r1))%bool = false ->
-  exists w, a :: r1 = w ++ r /\ LegacyOctalEscapeSequence w r.
+  exists w, a :: r1 = w ++ r /\ LegacyOctalEscapeSequence w r (legacy_octal_value (a :: r1)).
 Proof.
-  cbn [sp_legacy_octal]. destruct (octal_digit a) eqn:Ea; [|discriminate]. intros H Hz.
+  cbn [sp_legacy_octal legacy_octal_value]. destruct (octal_digit a) eqn:Ea; [|discriminate]. intros H Hz.
   assert (Hone : forall rest, nooctal rest = true -> (a = 48 -> starts_digit rest = true) ->
-                 exists w, a :: rest = w ++ rest /\ LegacyOctalEscapeSequence w rest).
+                 exists w, a :: rest = w ++ rest /\ LegacyOctalEscapeSequence w rest (a - 48)).
   { intros rest Hno Hz'. exists [a]. split; [reflexivity|]. destruct (N.eq_dec a 48) as [->|Hne].
     - destruct rest as [|d rest']; [discriminate (Hz' eq_refl)|]. cbn [starts_digit nooctal] in *.
       apply negb_true_iff in Hno. apply LO_zero. exact (digit_not_octal d (Hz' eq_refl) Hno).
@@ -438,14 +438,15 @@ Proof.
       * exists [a; b]. split; [reflexivity|apply LO_two_low; [exact E03|exact Eb|exact Ec]].
   - injection H as <-. exists [a; b]. split; [reflexivity|apply LO_two_high; [apply octal_split; assumption|exact Eb]].
 Qed.
-Lemma sp_legacy_octal_complete w r : LegacyOctalEscapeSequence w r -> sp_legacy_octal (w ++ r) = (true, r).
+Lemma sp_legacy_octal_complete w r v : LegacyOctalEscapeSequence w r v ->
+  sp_legacy_octal (w ++ r) = (true, r) /\ legacy_octal_value (w ++ r) = v.
 Proof.
-  intros [d r0 Hd|a r0 Ha Hne Hno|a b r0 Ha Hb Hno|a b r0 Ha Hb|a b c r0 Ha Hb Hc]; cbn [app sp_legacy_octal].
-  - cbn [octal_digit N.leb N.compare Pos.compare Pos.compare_cont andb]. destruct Hd as [-> | ->]; reflexivity.
-  - rewrite Ha. destruct r0 as [|b r1]; [reflexivity|]. cbn in Hno. rewrite Hno. reflexivity.
-  - rewrite (zero_to_three_octal a Ha), Hb, Ha. destruct r0 as [|c r1]; [reflexivity|]. cbn in Hno. rewrite Hno. reflexivity.
-  - destruct (four_to_seven_octal a Ha) as [Ho [H03 _]]. rewrite Ho, Hb, H03. reflexivity.
-  - rewrite (zero_to_three_octal a Ha), Hb, Ha, Hc. reflexivity.
+  intros [d r0 Hd|a r0 Ha Hne Hno|a b r0 Ha Hb Hno|a b r0 Ha Hb|a b c r0 Ha Hb Hc]; cbn [app sp_legacy_octal legacy_octal_value].
+  - cbn [octal_digit N.leb N.compare Pos.compare Pos.compare_cont andb]. destruct Hd as [-> | ->]; split; reflexivity.
+  - rewrite Ha. destruct r0 as [|b r1]; [split; reflexivity|]. cbn in Hno. rewrite Hno. split; reflexivity.
+  - rewrite (zero_to_three_octal a Ha), Hb, Ha. destruct r0 as [|c r1]; [split; reflexivity|]. cbn in Hno. rewrite Hno. split; reflexivity.
+  - destruct (four_to_seven_octal a Ha) as [Ho [H03 _]]. rewrite Ho, Hb, H03. split; reflexivity.
+  - rewrite (zero_to_three_octal a Ha), Hb, Ha, Hc. split; reflexivity.
 Qed.
 Lemma sp_legacy_octal_false l r : sp_legacy_octal l = (false, r) ->
   r = l /\ match l with c :: _ => octal_digit c = false | [] => True end.
@@ -455,7 +456,7 @@ Proof.
   destruct r1 as [|b r2]; [discriminate|]. destruct (octal_digit b); [|discriminate].
   destruct (zero_to_three a); [|discriminate]. destruct r2 as [|c r3]; [discriminate|]. destruct (octal_digit c); discriminate.
 Qed.
-Lemma LegacyOctal_head w r : LegacyOctalEscapeSequence w r -> exists a w', w = a :: w' /\ octal_digit a = true /\
+Lemma LegacyOctal_head w r v : LegacyOctalEscapeSequence w r v -> exists a w', w = a :: w' /\ octal_digit a = true /\
   ((a =? 48) && negb (starts_digit (w' ++ r)))%bool = false.
 Proof.
   intros [d r0 Hd|a r0 Ha Hne Hno|a b r0 Ha Hb Hno|a b r0 Ha Hb|a b c r0 Ha Hb Hc].
@@ -493,18 +494,28 @@ Proof.
   - destruct u; [discriminate|]. intros [= <- <-]. right. repeat split. intros h1 h2 r' H1 H2 [= ->].
     cbn [hex_run] in E. rewrite H1, H2 in E. discriminate.
 Qed.
+Lemma hex_run_value_spec hs v r : Hex4Digits hs v -> hex_run_value 4 (hs ++ r) = v.
+Proof. intros H. unfold hex_run_value. rewrite (Hex4Digits_run hs v r H). reflexivity. Qed.
 Lemma sp_unicode_esc_sound l b r : sp_unicode_esc u l = SOk b r ->
-  (b = true /\ exists w, l = 117 :: w ++ r /\ w <> [] /\ RegExpUnicodeEscapeSequence u (117 :: w) r) \/
+  (b = true /\ exists w, l = 117 :: w ++ r /\ w <> [] /\ RegExpUnicodeEscapeSequence u (117 :: w) r (unicode_value u (tl l))) \/
   (b = false /\ r = l /\ forall hs v r', Hex4Digits hs v -> l <> 117 :: hs ++ r').
 Proof.
   destruct l as [|c l']; cbn [sp_unicode_esc]; [intros [= <- <-]; right; repeat split; discriminate|].
   destruct (N.eqb_spec c 117) as [->|Hc]; [|intros [= <- <-]; right; repeat split; congruence].
+  cbn [tl]. unfold unicode_value.
   destruct (if u then sp_surrogate_pair l' else (false, l')) as [b1 r1] eqn:E1.
   destruct b1.
-  { destruct u eqn:Eu; [|discriminate E1]. intros [= <- <-]. left. split; [reflexivity|].
+  { destruct u eqn:Eu; [|discriminate E1]. intros [= <- <-]. left. split; [reflexivity|]. rewrite E1. cbn [fst andb].
     apply sp_surrogate_pair_true in E1. destruct E1 as [hs [v [ts [w [Hh [Hl [Ht [Hw ->]]]]]]]].
     exists (hs ++ g_backslash :: 117 :: ts). split; [rewrite <- app_assoc; reflexivity|]. split; [destruct hs; discriminate|].
+    rewrite (hex_run_value_spec hs v _ Hh).
+    assert (E6 : skipn 6 (hs ++ g_backslash :: 117 :: ts ++ r1) = ts ++ r1).
+    { destruct Hh as [_ Hlen]. destruct hs as [|h1 [|h2 [|h3 [|h4 [|h5 hs]]]]]; try discriminate Hlen. reflexivity. }
+    rewrite E6. rewrite (hex_run_value_spec ts w _ Ht).
     apply (UE_pair true hs v ts w r1 eq_refl Hh Hl Ht Hw). }
+  assert (Ep : (u && fst (sp_surrogate_pair l'))%bool = false).
+  { destruct u; [|reflexivity]. rewrite E1. reflexivity. }
+  rewrite Ep.
   destruct (sp_fixed_hex 4 l') as [b2 r2] eqn:E2. destruct b2.
   { intros [= <- <-]. left. split; [reflexivity|]. unfold sp_fixed_hex in E2.
     destruct (hex_run 4 l' 0) as [[v r0]|] eqn:E; [|discriminate]. injection E2 as <-.
@@ -512,14 +523,15 @@ Proof.
     split; [destruct Hh as [_ Hl]; destruct hs; discriminate|].
     apply (UE_hex4 u hs v r0 Hh). intros -> Hl Hf. destruct Hf as [ts [w [r' [Ht [Hw ->]]]]].
     rewrite (sp_surrogate_pair_complete hs v ts w r' Hh Hl Ht Hw) in E1. discriminate. }
-  destruct (sp_fixed_hex_false _ _ _ _ E2 eq_refl) as [_ Hnone].
+  destruct (sp_fixed_hex_false _ _ _ _ E2 eq_refl) as [_ Hnone]. rewrite Hnone.
   assert (Hno : forall hs v r', Hex4Digits hs v -> 117 :: l' <> 117 :: hs ++ r').
   { intros hs v r' Hh [= ->]. rewrite (Hex4Digits_run hs v r' Hh) in Hnone. discriminate. }
   destruct u eqn:Eu.
   - destruct (sp_codepoint l') as [[|] r3| |] eqn:E3; try discriminate. intros [= <- <-]. left. split; [reflexivity|].
     apply sp_codepoint_sound in E3. destruct E3 as [[_ [ds [v [Hd [Hv ->]]]]]|[E3 _]]; [|discriminate].
     exists (g_lbrace :: ds ++ [g_rbrace]). split; [cbn [app]; rewrite <- app_assoc; reflexivity|]. split; [discriminate|].
-    apply (UE_code_point true ds v r3 eq_refl Hd Hv).
+    cbn [tl]. pose proof (HexDigits_spec ds v Hd) as [_ [Hf Hval]]. rewrite (span_hex_app ds _ Hf) by reflexivity. cbn [fst].
+    rewrite Hval. apply (UE_code_point true ds v r3 eq_refl Hd Hv).
   - intros [= <- <-]. right. repeat split. exact Hno.
 Qed.
 Lemma identity_true_cases c : identity_escape true c = true ->
@@ -529,11 +541,98 @@ Proof.
   cbn [identity_escape]. unfold syntax_character. cbn [existsb]. intros H.
   repeat (apply orb_true_iff in H; destruct H as [H|H]); try discriminate H; apply N.eqb_eq in H; subst c; repeat split.
 Qed.
+(* CharacterEscape as sp_ce finds it, with the CharacterValue ce_value computes *)
+Lemma sp_ce_sound onp l b r : sp_ce u l = SOk b r -> ~ decimal_escape_earlier onp l ->
+  (b = true /\ exists w, l = w ++ r /\ CharacterEscape u onp w r (ce_value u l) /\
+                          (forall x w', w = x :: w' -> w' <> [] -> assertion_escape x = false)) \/
+  (b = false /\ r = l).
+Proof.
+  intros H Hnodec. destruct l as [|c l']; cbn [sp_ce] in H; [injection H as <- <-; right; split; reflexivity|].
+  assert (Hone : forall x w', [c] = x :: w' -> w' <> [] -> assertion_escape x = false) by (intros x w' [= <- <-] H'; contradiction).
+  cbn [ce_value]. revert H.
+  destruct (control_escape c) eqn:Eco.
+  { intros [= <- <-]. left. split; [reflexivity|]. exists [c]. split; [reflexivity|].
+    split; [apply CE_control; exact Eco|exact Hone]. }
+  destruct ((c =? 99) && starts_letter l')%bool eqn:Ele.
+  { apply andb_true_iff in Ele. destruct Ele as [Ec El]. apply N.eqb_eq in Ec. subst c.
+    destruct l' as [|d l'']; [discriminate El|]. cbn [starts_letter tl hd] in *. intros [= <- <-]. left. split; [reflexivity|].
+    exists [99; d]. split; [reflexivity|]. split; [apply CE_letter; exact El|].
+    intros x w' [= <- <-] _. reflexivity. }
+  destruct ((c =? 48) && negb (starts_digit l'))%bool eqn:Ez.
+  { apply andb_true_iff in Ez. destruct Ez as [Ec Ed]. apply N.eqb_eq in Ec. subst c. apply negb_true_iff in Ed.
+    intros [= <- <-]. left. split; [reflexivity|]. exists [48]. split; [reflexivity|]. split; [|exact Hone].
+    apply CE_zero. destruct l' as [|d l'']; [exact I|exact Ed]. }
+  destruct (sp_hex_esc u (c :: l')) as [[|] r1| |] eqn:Eh; try discriminate.
+  { intros [= <- <-]. left. split; [reflexivity|]. cbn [is_true]. apply sp_hex_esc_sound in Eh.
+    destruct Eh as [[_ [h1 [h2 [E [H1 H2]]]]]|[Eh _]]; [|discriminate]. injection E as -> ->.
+    exists [120; h1; h2]. split; [reflexivity|]. split; [|intros x w' [= <- <-] _; reflexivity].
+    unfold hex_run_value. cbn [hex_run]. rewrite H1, H2. rewrite N.mul_0_r, N.add_0_l. apply CE_hex; assumption. }
+  cbn [is_true]. apply sp_hex_esc_sound in Eh. destruct Eh as [[Eh _]|[_ [_ Hnohex]]]; [discriminate|].
+  destruct (sp_unicode_esc u (c :: l')) as [[|] r2| |] eqn:Eu; try discriminate.
+  { intros [= <- <-]. left. split; [reflexivity|]. cbn [is_true]. apply sp_unicode_esc_sound in Eu.
+    destruct Eu as [[_ [w [E [Hne HU]]]]|[Eu _]]; [|discriminate]. injection E as -> ->.
+    exists (117 :: w). split; [reflexivity|]. split; [apply CE_unicode; exact HU|].
+    intros x w' [= <- <-] _. reflexivity. }
+  cbn [is_true]. apply sp_unicode_esc_sound in Eu. destruct Eu as [[Eu _]|[_ [_ Hnouni]]]; [discriminate|].
+  destruct (if u then (false, c :: l') else sp_legacy_octal (c :: l')) as [bo ro] eqn:Eo. destruct bo.
+  { destruct u eqn:Eu'; [discriminate Eo|]. intros [= <- <-]. left. split; [reflexivity|].
+    destruct (sp_legacy_octal_sound c l' ro Eo Ez) as [w [E HL]]. exists w. split; [exact E|].
+    destruct (LegacyOctal_head w ro _ HL) as [a [w' [-> [Ha _]]]]. injection E as <- E. cbn [negb andb]. rewrite Ha. split.
+    - apply CE_legacy_octal; [reflexivity|exact HL|]. cbn [app]. rewrite <- E. exact Hnodec.
+    - intros x w'' [= <- <-] _. apply (octal_not_special c Ha). }
+  destruct (identity_escape u c) eqn:Ei.
+  2:{ intros [= <- <-]. right. split; reflexivity. }
+  intros [= <- <-]. left. split; [reflexivity|]. exists [c]. split; [reflexivity|]. split; [|exact Hone].
+  assert (Hval : (if negb u && octal_digit c then legacy_octal_value (c :: l') else c) = c).
+  { destruct u; [reflexivity|]. cbn [negb andb]. apply sp_legacy_octal_false in Eo. destruct Eo as [_ Hoct]. rewrite Hoct. reflexivity. }
+  rewrite Hval. apply CE_identity; [exact Ei|]. intros Hu. rewrite Hu in Eo. split; [exact Eco|]. split; [|exact Hnodec].
+  apply sp_legacy_octal_false in Eo. destruct Eo as [_ Hoct].
+  intros [H|[[-> [h1 [h2 [r' [H1 [H2 ->]]]]]]|[-> [hs [v [r' [Hh ->]]]]]]].
+  - congruence.
+  - exact (Hnohex h1 h2 r' H1 H2 eq_refl).
+  - exact (Hnouni hs v r' Hh eq_refl).
+Qed.
+Lemma sp_cce_sound l b r : sp_cce l = SOk b r ->
+  (b = true /\ exists c, l = c :: r /\ character_class_escape c = true) \/ (b = false /\ r = l).
+Proof.
+  destruct l as [|c l']; cbn [sp_cce]; [intros [= <- <-]; right; split; reflexivity|].
+  destruct (character_class_escape c) eqn:E; intros [= <- <-]; [left; split; [reflexivity|exists c; split; [reflexivity|exact E]]|right; split; reflexivity].
+Qed.
+(* sp_atom_escape is DecimalEscape, then CharacterClassEscape, then CharacterEscape *)
+Lemma sp_atom_escape_split l : sp_atom_escape u np l =
+  match sp_backref u np l with
+  | SOk true r' => SOk true r'
+  | SOk false _ =>
+      match sp_cce l with
+      | SOk true r' => SOk true r'
+      | SOk false _ =>
+          match sp_ce u l with
+          | SOk true r' => SOk true r'
+          | SOk false _ => if u then SErr else SOk false l
+          | SErr => SErr
+          | SFuel => SFuel
+          end
+      | SErr => SErr
+      | SFuel => SFuel
+      end
+  | SErr => SErr
+  | SFuel => SFuel
+  end.
+Proof.
+  unfold sp_atom_escape. destruct (sp_backref u np l) as [[|] r0| |]; try reflexivity.
+  destruct l as [|c r]; [reflexivity|]. cbn [sp_cce sp_ce].
+  destruct (character_class_escape c); [reflexivity|]. destruct (control_escape c); [reflexivity|].
+  destruct ((c =? 99) && starts_letter r); [reflexivity|]. destruct ((c =? 48) && negb (starts_digit r)); [reflexivity|].
+  destruct (sp_hex_esc u (c :: r)) as [[|] r1| |]; try reflexivity.
+  destruct (sp_unicode_esc u (c :: r)) as [[|] r2| |]; try reflexivity.
+  destruct (if u then (false, c :: r) else sp_legacy_octal (c :: r)) as [[|] r3]; [reflexivity|].
+  destruct (identity_escape u c); reflexivity.
+Qed.
 Lemma sp_atom_escape_sound l b r : sp_atom_escape u np l = SOk b r ->
   (b = true /\ exists w, l = w ++ r /\ AtomEscape u np w r /\ (forall x w', w = x :: w' -> w' <> [] -> assertion_escape x = false)) \/
   (b = false /\ r = l).
 Proof.
-  unfold sp_atom_escape. destruct (sp_backref u np l) as [[|] r0| |] eqn:Eb; try discriminate.
+  rewrite sp_atom_escape_split. destruct (sp_backref u np l) as [[|] r0| |] eqn:Eb; try discriminate.
   { intros [= <- <-]. left. split; [reflexivity|]. apply sp_backref_sound in Eb.
     destruct Eb as [[_ [ds [v [-> [HD Hv]]]]]|[Eb _]]; [|discriminate]. exists ds. split; [reflexivity|].
     split; [apply (AE_decimal u np ds v r0 HD Hv)|].
@@ -541,49 +640,14 @@ Proof.
     unfold non_zero_digit in Hd. apply andb_true_iff in Hd. destruct Hd as [_ Hd]. apply N.leb_le in Hd.
     unfold assertion_escape. apply orb_false_iff. split; apply N.eqb_neq; lia. }
   apply sp_backref_sound in Eb. destruct Eb as [[Eb _]|[_ [_ Hnodec]]]; [discriminate|].
-  destruct l as [|c l']; [destruct u; [discriminate|]; intros [= <- <-]; right; split; reflexivity|].
-  assert (Hone : forall x w', [c] = x :: w' -> w' <> [] -> assertion_escape x = false) by (intros x w' [= <- <-] H; contradiction).
-  destruct (character_class_escape c) eqn:Ecl.
-  { intros [= <- <-]. left. split; [reflexivity|]. exists [c]. split; [reflexivity|]. split; [apply AE_class; exact Ecl|exact Hone]. }
-  destruct (control_escape c) eqn:Eco.
-  { intros [= <- <-]. left. split; [reflexivity|]. exists [c]. split; [reflexivity|].
-    split; [apply AE_character, CE_control; exact Eco|exact Hone]. }
-  destruct ((c =? 99) && starts_letter l')%bool eqn:Ele.
-  { apply andb_true_iff in Ele. destruct Ele as [Ec El]. apply N.eqb_eq in Ec. subst c.
-    destruct l' as [|d l'']; [discriminate El|]. cbn [starts_letter tl] in *. intros [= <- <-]. left. split; [reflexivity|].
-    exists [99; d]. split; [reflexivity|]. split; [apply AE_character, CE_letter; exact El|].
-    intros x w' [= <- <-] _. reflexivity. }
-  destruct ((c =? 48) && negb (starts_digit l'))%bool eqn:Ez.
-  { apply andb_true_iff in Ez. destruct Ez as [Ec Ed]. apply N.eqb_eq in Ec. subst c. apply negb_true_iff in Ed.
-    intros [= <- <-]. left. split; [reflexivity|]. exists [48]. split; [reflexivity|]. split; [|exact Hone].
-    apply AE_character, CE_zero. destruct l' as [|d l'']; [exact I|exact Ed]. }
-  destruct (sp_hex_esc u (c :: l')) as [[|] r1| |] eqn:Eh; try discriminate.
-  { intros [= <- <-]. left. split; [reflexivity|]. apply sp_hex_esc_sound in Eh.
-    destruct Eh as [[_ [h1 [h2 [E [H1 H2]]]]]|[Eh _]]; [|discriminate]. injection E as -> ->.
-    exists [120; h1; h2]. split; [reflexivity|]. split; [apply AE_character, CE_hex; assumption|].
-    intros x w' [= <- <-] _. reflexivity. }
-  apply sp_hex_esc_sound in Eh. destruct Eh as [[Eh _]|[_ [_ Hnohex]]]; [discriminate|].
-  destruct (sp_unicode_esc u (c :: l')) as [[|] r2| |] eqn:Eu; try discriminate.
-  { intros [= <- <-]. left. split; [reflexivity|]. apply sp_unicode_esc_sound in Eu.
-    destruct Eu as [[_ [w [E [Hne HU]]]]|[Eu _]]; [|discriminate]. injection E as -> ->.
-    exists (117 :: w). split; [reflexivity|]. split; [apply AE_character, CE_unicode; exact HU|].
-    intros x w' [= <- <-] _. reflexivity. }
-  apply sp_unicode_esc_sound in Eu. destruct Eu as [[Eu _]|[_ [_ Hnouni]]]; [discriminate|].
-  destruct (if u then (false, c :: l') else sp_legacy_octal (c :: l')) as [bo ro] eqn:Eo. destruct bo.
-  { destruct u eqn:Eu'; [discriminate Eo|]. intros [= <- <-]. left. split; [reflexivity|].
-    destruct (sp_legacy_octal_sound c l' ro Eo Ez) as [w [E HL]]. exists w. split; [exact E|]. split.
-    - apply AE_character, CE_legacy_octal; [reflexivity|exact HL|rewrite <- E; exact Hnodec].
-    - destruct (LegacyOctal_head w ro HL) as [a [w' [-> [Ha _]]]]. intros x w'' [= <- <-] _.
-      apply (octal_not_special a Ha). }
-  destruct (identity_escape u c) eqn:Ei.
-  2:{ destruct u; [discriminate|]. intros [= <- <-]. right. split; reflexivity. }
-  intros [= <- <-]. left. split; [reflexivity|]. exists [c]. split; [reflexivity|]. split; [|exact Hone].
-  apply AE_character, CE_identity; [exact Ei|]. intros Hu. rewrite Hu in Eo. split; [|exact Hnodec].
-  apply sp_legacy_octal_false in Eo. destruct Eo as [_ Hoct].
-  intros [H|[[-> [h1 [h2 [r' [H1 [H2 ->]]]]]]|[-> [hs [v [r' [Hh ->]]]]]]].
-  - congruence.
-  - exact (Hnohex h1 h2 r' H1 H2 eq_refl).
-  - exact (Hnouni hs v r' Hh eq_refl).
+  destruct (sp_cce l) as [[|] r1| |] eqn:Ec; try discriminate.
+  { intros [= <- <-]. left. split; [reflexivity|]. apply sp_cce_sound in Ec. destruct Ec as [[_ [c [-> Hc]]]|[Ec _]]; [|discriminate].
+    exists [c]. split; [reflexivity|]. split; [apply AE_class; exact Hc|]. intros x w' [= <- <-] H; contradiction. }
+  destruct (sp_ce u l) as [[|] r2| |] eqn:Ee; try discriminate.
+  - intros [= <- <-]. left. split; [reflexivity|].
+    destruct (sp_ce_sound (Some np) l true r2 Ee Hnodec) as [[_ [w [E [HC Hh]]]]|[Ee' _]]; [|discriminate].
+    exists w. split; [exact E|]. split; [eapply AE_character; exact HC|exact Hh].
+  - destruct u; [discriminate|]. intros [= <- <-]. right. split; reflexivity.
 Qed.
 Lemma sp_escape_sound l b r : sp_escape u np l = SOk b r ->
   (b = true /\ exists w, l = g_backslash :: w ++ r /\ AtomEscape u np w r /\
@@ -597,6 +661,148 @@ Proof.
   - right. split; reflexivity.
 Qed.
 End EscapeSound.
+
+(* ================= character classes ================= *)
+Lemma CharacterEscape_head u onp w r v : CharacterEscape u onp w r v -> exists x w', w = x :: w' /\
+  (w' <> [] -> x <> 98 /\ character_class_escape x = false /\ assertion_escape x = false /\ (x = 99 \/ x = 120 \/ x = 117 \/ octal_digit x = true)).
+Proof.
+  intros [c r0 Hc|c r0 Hc|r0 Hn|h1 h2 r0 H1 H2|w0 r0 v0 HU|w0 r0 v0 Hu HL Hnd|c r0 Hi Hn];
+    try (eexists; eexists; split; [reflexivity|intros H; first [contradiction|repeat split; (discriminate || auto)]]).
+  - destruct HU; eexists; eexists; (split; [reflexivity|intros _; repeat split; (discriminate || auto)]).
+  - destruct (LegacyOctal_head w0 r0 _ HL) as [a [w' [-> [Ha _]]]]. exists a, w'. split; [reflexivity|]. intros _.
+    destruct (octal_not_special a Ha) as [Ecl [_ [_ [_ [_ Eas]]]]]. repeat split; try assumption; [|auto].
+    intros ->. discriminate Ha.
+Qed.
+Lemma CharacterEscape_first u onp w r v : CharacterEscape u onp w r v -> forall x w', w = x :: w' ->
+  (u = true -> x <> 45) /\ (x = 99 -> exists c, w' = [c] /\ control_letter c = true).
+Proof.
+  intros [c r0 Hc|c r0 Hc|r0 Hn|h1 h2 r0 H1 H2|w0 r0 v0 HU|w0 r0 v0 Hu HL Hnd|c r0 Hi Hn] x w' E.
+  - injection E as <- <-. split; [intros _ ->; discriminate Hc|intros ->; discriminate Hc].
+  - injection E as <- <-. split; [intros _; discriminate|intros _; exists c; split; [reflexivity|exact Hc]].
+  - injection E as <- <-. split; [intros _; discriminate|discriminate].
+  - injection E as <- <-. split; [intros _; discriminate|discriminate].
+  - destruct HU; injection E as <- <-; (split; [intros _; discriminate|discriminate]).
+  - destruct (LegacyOctal_head w0 r0 _ HL) as [a [w2 [-> [Ha _]]]]. injection E as <- <-.
+    split; [intros _ ->; discriminate Ha|intros ->; discriminate Ha].
+  - injection E as <- <-. split.
+    + intros -> ->. discriminate Hi.
+    + intros ->. destruct u; discriminate Hi.
+Qed.
+Section ClassSound.
+Variable u : bool.
+Lemma sp_class_escape_sound l ov r : sp_class_escape u l = SOk (Some ov) r -> exists w, l = w ++ r /\ ClassEscape u w r ov.
+Proof.
+  destruct l as [|c l']; cbn [sp_class_escape]; [discriminate|].
+  destruct (N.eqb_spec c 98) as [->|Hb]; [intros [= <- <-]; exists [98]; split; [reflexivity|apply CLE_b]|].
+  destruct (u && (c =? 45))%bool eqn:Ed.
+  { apply andb_true_iff in Ed. destruct Ed as [Hu Ec]. apply N.eqb_eq in Ec. subst c. intros [= <- <-].
+    exists [45]. split; [reflexivity|apply CLE_dash; exact Hu]. }
+  destruct (negb u && (c =? 99) && match l' with d :: _ => class_control_letter d | [] => false end)%bool eqn:Ec.
+  { apply andb_true_iff in Ec. destruct Ec as [Ec Hd]. apply andb_true_iff in Ec. destruct Ec as [Hu Ec].
+    apply negb_true_iff in Hu. apply N.eqb_eq in Ec. subst c. destruct l' as [|d l'']; [discriminate Hd|]. cbn [hd tl].
+    intros [= <- <-]. exists [99; d]. split; [reflexivity|apply CLE_control_letter; assumption]. }
+  destruct (sp_cce (c :: l')) as [[|] r1| |] eqn:Ecc; try discriminate.
+  { intros [= <- <-]. apply sp_cce_sound in Ecc. destruct Ecc as [[_ [c0 [E Hc]]]|[Ecc _]]; [|discriminate]. injection E as <- <-.
+    exists [c]. split; [reflexivity|apply CLE_class; exact Hc]. }
+  assert (Hncl : character_class_escape c = false).
+  { cbn [sp_cce] in Ecc. destruct (character_class_escape c); [discriminate|reflexivity]. }
+  destruct (sp_ce u (c :: l')) as [[|] r2| |] eqn:Ece; try discriminate. intros [= <- <-].
+  destruct (sp_ce_sound u None (c :: l') true r2 Ece (fun H => H)) as [[_ [w [E [HC _]]]]|[Ee _]]; [|discriminate].
+  exists w. split; [exact E|]. apply CLE_character; [exact HC|]. intros c0 ->. injection E as <- _. split; assumption.
+Qed.
+Lemma sp_class_escape_none l r : sp_class_escape u l = SOk None r -> r = l /\
+  forall l', l = 99 :: l' -> u = false -> match l' with d :: _ => class_control_letter d = false /\ control_letter d = false | [] => True end.
+Proof.
+  destruct l as [|c l']; cbn [sp_class_escape]; [intros [= <-]; split; [reflexivity|discriminate]|].
+  destruct (c =? 98); [discriminate|]. destruct (u && (c =? 45))%bool; [discriminate|].
+  destruct (negb u && (c =? 99) && match l' with d :: _ => class_control_letter d | [] => false end)%bool eqn:Ec; [discriminate|].
+  destruct (sp_cce (c :: l')) as [[|] r1| |]; try discriminate.
+  destruct (sp_ce u (c :: l')) as [[|] r2| |] eqn:Ece; try discriminate. intros [= <-]. split; [reflexivity|].
+  intros l0 [= -> <-] Hu. rewrite Hu in *. cbn [negb N.eqb Pos.eqb andb] in Ec. destruct l' as [|d l'']; [exact I|].
+  split; [exact Ec|]. cbn [sp_ce control_escape existsb N.eqb Pos.eqb orb andb starts_letter] in Ece.
+  destruct (control_letter d); [discriminate Ece|reflexivity].
+Qed.
+Lemma sp_class_atom_sound l ov r : sp_class_atom u l = SOk (Some ov) r -> exists w, l = w ++ r /\ ClassAtom u w r ov.
+Proof.
+  destruct l as [|c l']; cbn [sp_class_atom]; [discriminate|].
+  destruct (N.eqb_spec c g_backslash) as [->|Hbs]; cbn [negb andb].
+  - destruct (sp_class_escape u l') as [[ov'|] r1| |] eqn:E; try discriminate.
+    + intros [= <- <-]. apply sp_class_escape_sound in E. destruct E as [w [-> HE]].
+      exists (g_backslash :: w). split; [reflexivity|apply CA_no_dash, CAN_escape; exact HE].
+    + destruct (negb u && starts_with 99 l')%bool eqn:Ec; [|destruct u; discriminate]. intros [= <- <-].
+      apply andb_true_iff in Ec. destruct Ec as [Hu Hc]. apply negb_true_iff in Hu. destruct l' as [|x l'']; [discriminate Hc|].
+      cbn [starts_with] in Hc. apply N.eqb_eq in Hc. subst x. exists [g_backslash]. split; [reflexivity|].
+      apply CA_no_dash, CAN_backslash_c; [exact Hu|]. apply sp_class_escape_none in E. destruct E as [_ E]. exact (E l'' eq_refl Hu).
+  - destruct (N.eqb_spec c g_rbracket) as [->|Hrb]; [discriminate|]. cbn [negb]. intros [= <- <-]. exists [c]. split; [reflexivity|].
+    destruct (N.eq_dec c 45) as [->|Hd]; [apply CA_dash|apply CA_no_dash, CAN_char; assumption].
+Qed.
+Lemma sp_class_atom_none l r : sp_class_atom u l = SOk None r -> r = l.
+Proof.
+  destruct l as [|c l']; cbn [sp_class_atom]; [intros [= <-]; reflexivity|].
+  destruct (negb (c =? g_backslash) && negb (c =? g_rbracket))%bool; [discriminate|]. destruct (c =? g_backslash); [|intros [= <-]; reflexivity].
+  destruct (sp_class_escape u l') as [[ov'|] r1| |]; try discriminate.
+  destruct (negb u && starts_with 99 l')%bool; [discriminate|]. destruct u; [discriminate|intros [= <-]; reflexivity].
+Qed.
+Lemma ClassAtomNoDash_head w r v : ClassAtomNoDash u w r v -> exists x w', w = x :: w' /\ x <> 45 /\ x <> g_rbracket.
+Proof. intros [c r0 H1 H2 H3|w0 r0 v0 _|r0 _ _]; eexists; eexists; (split; [reflexivity|split; (assumption || discriminate)]). Qed.
+Lemma ClassAtom_nonempty w r v : ClassAtom u w r v -> exists x w', w = x :: w' /\ x <> g_rbracket.
+Proof.
+  intros [r0|w0 r0 v0 H]; [exists 45, []; split; [reflexivity|discriminate]|].
+  destruct (ClassAtomNoDash_head _ _ _ H) as [x [w' [-> [_ Hx]]]]. exists x, w'. split; [reflexivity|exact Hx].
+Qed.
+Lemma to_nodash w r : ClassRanges u w r -> match w with c :: _ => c <> 45 | [] => True end ->
+  w = [] \/ NonemptyClassRangesNoDash u w r.
+Proof.
+  intros [r0|w0 r0 H] Hc; [left; reflexivity|right].
+  assert (Hnd : forall a rest va, ClassAtom u a rest va -> match a with c :: _ => c <> 45 | [] => True end -> ClassAtomNoDash u a rest va).
+  { intros a rest va [r1|w1 r1 v1 H1] Hc'; [exfalso; apply Hc'; reflexivity|exact H1]. }
+  destruct H as [a r1 v Ha|a b r1 v Ha Hb|a b c r1 va vb Ha Hb Hc' Hok].
+  - eapply NCRN_atom; exact Ha.
+  - destruct (ClassAtom_nonempty _ _ _ Ha) as [x [a' [-> _]]]. eapply NCRN_atom_more; [|exact Hb]. apply (Hnd _ _ _ Ha). exact Hc.
+  - destruct (ClassAtom_nonempty _ _ _ Ha) as [x [a' [-> _]]]. eapply NCRN_range; [|exact Hb|exact Hc'|exact Hok]. apply (Hnd _ _ _ Ha). exact Hc.
+Qed.
+Lemma range_ok_b_spec a b : range_ok_b u a b = true <-> range_ok u a b.
+Proof.
+  unfold range_ok_b, range_ok. destruct a as [x|], b as [y|]; try (rewrite negb_true_iff; tauto). apply N.leb_le.
+Qed.
+Lemma sp_class_ranges_sound g : forall l r, sp_class_ranges u g l = SOk tt r -> exists w, l = w ++ r /\ ClassRanges u w r.
+Proof.
+  induction g as [|g IH]; intros l r; cbn [sp_class_ranges]; [discriminate|].
+  destruct (sp_class_atom u l) as [[va|] l1| |] eqn:Ea; try discriminate.
+  2:{ intros [= <-]. exists []. split; [reflexivity|apply CR_empty]. }
+  apply sp_class_atom_sound in Ea. destruct Ea as [a [-> Ha]].
+  destruct (starts_with 45 l1) eqn:Ed.
+  - destruct l1 as [|d l2]; [discriminate Ed|]. cbn [starts_with] in Ed. apply N.eqb_eq in Ed. subst d. cbn [tl].
+    destruct (sp_class_atom u l2) as [[vb|] l3| |] eqn:Eb; try discriminate.
+    + destruct (range_ok_b u va vb) eqn:Eok; [|discriminate]. intros H. apply IH in H. destruct H as [c [-> Hc]].
+      apply sp_class_atom_sound in Eb. destruct Eb as [b [-> Hb]].
+      exists (a ++ 45 :: b ++ c). split; [rewrite <- app_assoc; cbn [app]; rewrite <- app_assoc; reflexivity|].
+      apply CR_nonempty. apply (NCR_range u a b c r va vb Ha Hb Hc). apply range_ok_b_spec. exact Eok.
+    + intros [= <-]. exists (a ++ [45]). split; [rewrite <- app_assoc; reflexivity|]. apply CR_nonempty.
+      apply (NCR_atom_more u a [45] l2 va Ha). eapply NCRN_atom. apply CA_dash.
+  - intros H. apply IH in H. destruct H as [w' [-> Hw]]. exists (a ++ w'). split; [rewrite app_assoc; reflexivity|].
+    apply CR_nonempty. destruct (to_nodash w' r Hw) as [->|Hn].
+    + destruct w' as [|c w'']; [exact I|]. cbn [app starts_with] in Ed. intros ->. discriminate Ed.
+    + rewrite app_nil_r. eapply NCR_atom. exact Ha.
+    + eapply NCR_atom_more; [exact Ha|exact Hn].
+Qed.
+Lemma sp_class_sound l b r : sp_class u l = SOk b r ->
+  (b = true /\ exists w, l = w ++ r /\ CharacterClass u w r) \/ (b = false /\ r = l /\ starts_with g_lbracket l = false).
+Proof.
+  destruct l as [|c l']; cbn [sp_class]; [intros [= <- <-]; right; repeat split|].
+  destruct (N.eqb_spec c g_lbracket) as [->|Hc]; [|intros [= <- <-]; right; repeat split; cbn [starts_with]; apply N.eqb_neq; exact Hc].
+  set (r1 := if starts_with g_caret l' then tl l' else l').
+  destruct (sp_class_ranges u (S (length r1)) r1) as [[] r2| |] eqn:E; try discriminate.
+  destruct (starts_with g_rbracket r2) eqn:Er; [|discriminate]. intros [= <- <-]. left. split; [reflexivity|].
+  destruct r2 as [|x r3]; [discriminate Er|]. cbn [starts_with] in Er. apply N.eqb_eq in Er. subst x. cbn [tl].
+  apply sp_class_ranges_sound in E. destruct E as [w [E Hw]]. subst r1.
+  destruct (starts_with g_caret l') eqn:Ec.
+  - destruct l' as [|x l'']; [discriminate Ec|]. cbn [starts_with] in Ec. apply N.eqb_eq in Ec. subst x. cbn [tl] in E. subst l''.
+    exists (g_lbracket :: g_caret :: w ++ [g_rbracket]). split; [cbn [app]; rewrite <- app_assoc; reflexivity|apply CC_negative; exact Hw].
+  - subst l'. exists (g_lbracket :: w ++ [g_rbracket]). split; [cbn [app]; rewrite <- app_assoc; reflexivity|].
+    apply CC_positive; [|exact Hw]. destruct w as [|x w']; [exact I|]. cbn [app starts_with] in Ec. intros ->. discriminate Ec.
+Qed.
+End ClassSound.
 
 Section Sound.
 Variable u : bool.
@@ -683,6 +889,9 @@ Proof.
         cbn [sp_escape] in Ee. rewrite N.eqb_refl in Ee. revert Ee. unfold sp_atom_escape.
         cbn [character_class_escape control_escape existsb N.eqb Pos.eqb orb andb].
         destruct l'' as [|d l3]; [intros _; exact I|]. cbn [starts_letter]. destruct (control_letter d); [discriminate|reflexivity]. }
+  destruct (N.eqb_spec c g_lbracket) as [->|_].
+  { intros H. apply sp_class_sound in H. destruct H as [[-> [w [-> Hw]]]|[_ [_ H]]]; [|discriminate H].
+    left. split; [reflexivity|]. exists w, 0. split; [reflexivity|apply At_class; exact Hw]. }
   destruct (N.eqb_spec c g_lparen) as [->|_].
   { assert (Hcap : forall l0, sp_group_body sdisj l0 = SOk b r ->
               b = true /\ exists w k, g_lparen :: l0 = w ++ r /\ Atom u np w r k).
@@ -832,6 +1041,7 @@ Proof.
   - intros r. split; [discriminate|destruct u; reflexivity].
   - intros w r _ _. split; [discriminate|destruct u; reflexivity].
   - intros r _ _. split; [discriminate|destruct u; reflexivity].
+  - intros w r [w0 r0 _ _|w0 r0 _]; (split; [discriminate|destruct u; reflexivity]).
   - intros d r k _ _. split; [discriminate|destruct u; reflexivity].
   - intros d r k _ _. split; [discriminate|destruct u; reflexivity].
 Qed.
@@ -839,24 +1049,30 @@ Lemma noq_not_question' u r q l : noq u r -> r = q :: l -> (q =? g_question) = f
 Proof. intros H ->. apply noq_head in H. unfold is_quant_char in H. apply orb_false_iff in H. apply H. Qed.
 
 (* ---- NcapturingParens: the groups of a derivation are the groups count_groups finds in its text ---- *)
-Definition safe (c : N) : Prop := c <> g_backslash /\ c <> g_lparen.
-Lemma count_safe ws r : Forall safe ws -> count_groups (ws ++ r) false = count_groups r false.
+(* units that count_groups passes over, whether inside a class or not *)
+Definition safe (c : N) : Prop := c <> g_backslash /\ c <> g_lparen /\ c <> g_lbracket /\ c <> g_rbracket.
+Lemma count_safe cls ws r : Forall safe ws -> count_groups (ws ++ r) cls false = count_groups r cls false.
+Proof.
+  induction 1 as [|c ws [H1 [H2 [H3 H4]]] _ IH]; [reflexivity|]. cbn [app count_groups].
+  apply N.eqb_neq in H1, H2, H3, H4. rewrite H1, H2, H3, H4. exact IH.
+Qed.
+(* inside a class only the backslash and the closing bracket matter *)
+Definition csafe (c : N) : Prop := c <> g_backslash /\ c <> g_rbracket.
+Lemma count_csafe ws r : Forall csafe ws -> count_groups (ws ++ r) true false = count_groups r true false.
 Proof.
   induction 1 as [|c ws [H1 H2] _ IH]; [reflexivity|]. cbn [app count_groups].
-  apply N.eqb_neq in H1, H2. rewrite H1, H2. exact IH.
+  apply N.eqb_neq in H1, H2. rewrite H1, H2. cbn [negb andb]. rewrite andb_false_r. destruct (c =? g_lbracket); exact IH.
 Qed.
-Lemma count_escaped c r : count_groups (c :: r) true = count_groups r false.
-Proof. reflexivity. Qed.
 Lemma digit_safe ds : Forall digit ds -> Forall safe ds.
-Proof. apply Forall_impl. intros c Hc. split; intros ->; discriminate Hc. Qed.
+Proof. apply Forall_impl. intros c Hc. repeat split; intros ->; discriminate Hc. Qed.
 Lemma hexd_safe ds : Forall hexd ds -> Forall safe ds.
-Proof. apply Forall_impl. intros c Hc. split; intros ->; discriminate Hc. Qed.
+Proof. apply Forall_impl. intros c Hc. repeat split; intros ->; discriminate Hc. Qed.
 Lemma DecimalDigits_safe ds v : DecimalDigits ds v -> Forall safe ds.
 Proof. intros H. apply DecimalDigits_spec in H. apply digit_safe. apply H. Qed.
 Lemma HexDigits_safe ds v : HexDigits ds v -> Forall safe ds.
 Proof. intros H. apply HexDigits_spec in H. apply hexd_safe. apply H. Qed.
-Lemma safe_const c : (c =? g_backslash) = false -> (c =? g_lparen) = false -> safe c.
-Proof. intros H1 H2. split; apply N.eqb_neq; assumption. Qed.
+Lemma safe_const c : (c =? g_backslash) = false -> (c =? g_lparen) = false -> (c =? g_lbracket) = false -> (c =? g_rbracket) = false -> safe c.
+Proof. intros H1 H2 H3 H4. repeat split; apply N.eqb_neq; assumption. Qed.
 Lemma Braced_safe q n om : Braced q n om -> Forall safe q.
 Proof.
   intros [ds n0 Hd|ds n0 Hd|ds n0 es m Hd He]; (constructor; [apply safe_const; reflexivity|]); apply Forall_app; split;
@@ -873,52 +1089,100 @@ Proof.
   intros [p H|p H]; [apply Hp; exact H|]. apply Forall_app. split; [apply Hp; exact H|repeat constructor; apply safe_const; reflexivity].
 Qed.
 Lemma letter_safe c : control_letter c = true -> safe c.
-Proof. intros H. split; intros ->; discriminate H. Qed.
-Lemma AtomEscape_count u np w r : AtomEscape u np w r -> count_groups (w ++ r) true = count_groups r false.
+Proof. intros H. repeat split; intros ->; discriminate H. Qed.
+Lemma CharacterEscape_count u onp w r v cls : CharacterEscape u onp w r v -> count_groups (w ++ r) cls true = count_groups r cls false.
 Proof.
-  intros [ds v r0 HD _|c r0 _|w0 r0 HC].
+  intros [c r0 _|c r0 Hc|r0 _|h1 h2 r0 H1 H2|w0 r0 v0 HU|w0 r0 v0 _ HL _|c r0 _ _]; try reflexivity.
+  - cbn [app count_groups]. apply (count_safe cls [c]). constructor; [apply letter_safe; exact Hc|constructor].
+  - cbn [app count_groups]. apply (count_safe cls [h1; h2]). apply hexd_safe. repeat constructor; assumption.
+  - destruct HU as [hs v1 ts x r1 _ [Hh _] _ [Ht _] _|hs v1 r1 [Hh _] _|ds v1 r1 _ Hd _]; cbn [app count_groups].
+    + rewrite <- app_assoc. rewrite (count_safe cls hs) by (eapply HexDigits_safe; eassumption). cbn [app count_groups].
+      cbn [N.eqb Pos.eqb g_backslash]. apply count_safe. eapply HexDigits_safe; eassumption.
+    + apply count_safe. eapply HexDigits_safe; eassumption.
+    + change (count_groups ((g_lbrace :: ds ++ [g_rbrace]) ++ r1) cls false = count_groups r1 cls false).
+      apply count_safe. constructor; [apply safe_const; reflexivity|]. apply Forall_app. split; [eapply HexDigits_safe; eassumption|].
+      repeat constructor; apply safe_const; reflexivity.
+  - destruct (LegacyOctal_head w0 r0 _ HL) as [a [w' [-> _]]]. cbn [app count_groups]. apply count_safe.
+    assert (Hall : Forall (fun c => octal_digit c = true) (a :: w')).
+    { destruct HL; repeat constructor; try assumption; try reflexivity; try (apply zero_to_three_octal; assumption);
+        try (apply four_to_seven_octal; assumption). }
+    inversion Hall as [|? ? _ Hw']; subst. revert Hw'. apply Forall_impl. intros c Hc. repeat split; intros ->; discriminate Hc.
+Qed.
+Lemma AtomEscape_count u np w r : AtomEscape u np w r -> count_groups (w ++ r) false true = count_groups r false false.
+Proof.
+  intros [ds v r0 HD _|c r0 _|w0 r0 v0 HC].
   - destruct HD as [d ds' v0 r1 _ HDD _]. apply DecimalDigits_safe in HDD. inversion HDD as [|? ? _ Hs]; subst.
     cbn [app count_groups]. apply count_safe. exact Hs.
   - reflexivity.
-  - destruct HC as [c r0 _|c r0 Hc|r0 _|h1 h2 r0 H1 H2|w0 r0 HU|w0 r0 _ HL _|c r0 _ _]; try reflexivity.
-    + cbn [app count_groups]. apply (count_safe [c]). constructor; [apply letter_safe; exact Hc|constructor].
-    + cbn [app count_groups]. apply (count_safe [h1; h2]). apply hexd_safe. repeat constructor; assumption.
-    + destruct HU as [hs v ts x r1 _ [Hh _] _ [Ht _] _|hs v r1 [Hh _] _|ds v r1 _ Hd _]; cbn [app count_groups].
-      * rewrite <- app_assoc. rewrite (count_safe hs) by (eapply HexDigits_safe; eassumption). cbn [app count_groups].
-        cbn [N.eqb Pos.eqb g_backslash]. apply count_safe. eapply HexDigits_safe; eassumption.
-      * apply count_safe. eapply HexDigits_safe; eassumption.
-      * change (count_groups ((g_lbrace :: ds ++ [g_rbrace]) ++ r1) false = count_groups r1 false).
-        apply count_safe. constructor; [apply safe_const; reflexivity|]. apply Forall_app. split; [eapply HexDigits_safe; eassumption|].
-        repeat constructor; apply safe_const; reflexivity.
-    + destruct (LegacyOctal_head w0 r0 HL) as [a [w' [-> _]]]. cbn [app count_groups]. apply count_safe.
-      assert (Hall : Forall (fun c => octal_digit c = true) (a :: w')).
-      { destruct HL; repeat constructor; try assumption; try reflexivity; try (apply zero_to_three_octal; assumption);
-          try (apply four_to_seven_octal; assumption). }
-      inversion Hall as [|? ? _ Hw']; subst. revert Hw'. apply Forall_impl. intros c Hc. split; intros ->; discriminate Hc.
+  - eapply CharacterEscape_count; exact HC.
+Qed.
+(* classes *)
+Lemma ClassEscape_count u w r ov : ClassEscape u w r ov -> count_groups (w ++ r) true true = count_groups r true false.
+Proof.
+  intros [r0|r0 _|c r0 _ Hc|c r0 _|w0 r0 v HC _]; try reflexivity.
+  - cbn [app count_groups]. apply (count_csafe [c]). constructor; [|constructor].
+    unfold class_control_letter in Hc. split; intros ->; discriminate Hc.
+  - eapply CharacterEscape_count; exact HC.
+Qed.
+Lemma ClassAtom_count u a r v : ClassAtom u a r v -> count_groups (a ++ r) true false = count_groups r true false.
+Proof.
+  intros [r0|w0 r0 v0 [c r1 H1 H2 H3|w1 r1 v1 HE|r1 _ _]].
+  - reflexivity.
+  - apply (count_csafe [c]). constructor; [split; assumption|constructor].
+  - cbn [app count_groups]. cbn [N.eqb Pos.eqb g_backslash]. eapply ClassEscape_count; exact HE.
+  - reflexivity.
+Qed.
+Lemma ClassAtomNoDash_count u a r v : ClassAtomNoDash u a r v -> count_groups (a ++ r) true false = count_groups r true false.
+Proof. intros H. apply (ClassAtom_count u a r v). apply CA_no_dash. exact H. Qed.
+Lemma ClassRanges_count u :
+  (forall w r, ClassRanges u w r -> count_groups (w ++ r) true false = count_groups r true false) /\
+  (forall w r, NonemptyClassRanges u w r -> count_groups (w ++ r) true false = count_groups r true false) /\
+  (forall w r, NonemptyClassRangesNoDash u w r -> count_groups (w ++ r) true false = count_groups r true false).
+Proof.
+  apply class_ranges_mutind.
+  - intros r. reflexivity.
+  - intros w r _ IH. exact IH.
+  - intros a r v Ha. eapply ClassAtom_count; exact Ha.
+  - intros a b r v Ha _ IHb. rewrite <- app_assoc. rewrite (ClassAtom_count u a _ v Ha). exact IHb.
+  - intros a b c r va vb Ha Hb _ IHc _. rewrite <- app_assoc. cbn [app]. rewrite <- app_assoc.
+    rewrite (ClassAtom_count u a _ va Ha). cbn [count_groups N.eqb Pos.eqb g_backslash g_lbracket g_rbracket g_lparen andb negb].
+    rewrite (ClassAtom_count u b _ vb Hb). exact IHc.
+  - intros a r v Ha. eapply ClassAtom_count; exact Ha.
+  - intros a b r v Ha _ IHb. rewrite <- app_assoc. rewrite (ClassAtomNoDash_count u a _ v Ha). exact IHb.
+  - intros a b c r va vb Ha Hb _ IHc _. rewrite <- app_assoc. cbn [app]. rewrite <- app_assoc.
+    rewrite (ClassAtomNoDash_count u a _ va Ha). cbn [count_groups N.eqb Pos.eqb g_backslash g_lbracket g_rbracket g_lparen andb negb].
+    rewrite (ClassAtom_count u b _ vb Hb). exact IHc.
+Qed.
+Lemma CharacterClass_count u w r : CharacterClass u w r -> count_groups (w ++ r) false false = count_groups r false false.
+Proof.
+  intros [w0 r0 _ Hw|w0 r0 Hw]; cbn [app count_groups]; cbn [N.eqb Pos.eqb g_lbracket g_backslash]; rewrite <- app_assoc; cbn [app].
+  - rewrite (proj1 (ClassRanges_count u) w0 _ Hw). reflexivity.
+  - cbn [count_groups N.eqb Pos.eqb g_caret g_backslash g_lbracket g_rbracket g_lparen andb negb].
+    rewrite (proj1 (ClassRanges_count u) w0 _ Hw). reflexivity.
 Qed.
 Lemma count_mut u np :
-  (forall d r k, Disjunction u np d r k -> count_groups (d ++ r) false = k + count_groups r false) /\
-  (forall a r k, Alternative u np a r k -> count_groups (a ++ r) false = k + count_groups r false) /\
-  (forall t r k, Term u np t r k -> count_groups (t ++ r) false = k + count_groups r false) /\
-  (forall w r k, Assertion u np w r k -> count_groups (w ++ r) false = k + count_groups r false) /\
-  (forall w r k, QuantifiableAssertion u np w r k -> count_groups (w ++ r) false = k + count_groups r false) /\
-  (forall w r k, Atom u np w r k -> count_groups (w ++ r) false = k + count_groups r false).
+  (forall d r k, Disjunction u np d r k -> count_groups (d ++ r) false false = k + count_groups r false false) /\
+  (forall a r k, Alternative u np a r k -> count_groups (a ++ r) false false = k + count_groups r false false) /\
+  (forall t r k, Term u np t r k -> count_groups (t ++ r) false false = k + count_groups r false false) /\
+  (forall w r k, Assertion u np w r k -> count_groups (w ++ r) false false = k + count_groups r false false) /\
+  (forall w r k, QuantifiableAssertion u np w r k -> count_groups (w ++ r) false false = k + count_groups r false false) /\
+  (forall w r k, Atom u np w r k -> count_groups (w ++ r) false false = k + count_groups r false false).
 Proof.
   assert (Hgroup : forall pre d r k, Forall safe pre ->
-            count_groups (d ++ g_rparen :: r) false = k + count_groups (g_rparen :: r) false ->
-            count_groups ((g_lparen :: g_question :: pre ++ d ++ [g_rparen]) ++ r) false = k + count_groups r false).
-  { intros pre d r k Hp IH. cbn [app count_groups]. cbn [N.eqb Pos.eqb g_lparen g_backslash g_question starts_with andb negb].
-    rewrite <- !app_assoc. rewrite (count_safe pre _ Hp). cbn [app]. rewrite IH. reflexivity. }
+            count_groups (d ++ g_rparen :: r) false false = k + count_groups (g_rparen :: r) false false ->
+            count_groups ((g_lparen :: g_question :: pre ++ d ++ [g_rparen]) ++ r) false false = k + count_groups r false false).
+  { intros pre d r k Hp IH. cbn [app count_groups]. cbn [N.eqb Pos.eqb g_lparen g_backslash g_question g_lbracket g_rbracket starts_with andb negb].
+    rewrite <- !app_assoc. rewrite (count_safe false pre _ Hp). cbn [app]. rewrite IH. reflexivity. }
   apply grammar_mutind.
   - intros a r k _ IH. exact IH.
   - intros a d r k1 k2 _ IHa _ IHd. rewrite <- app_assoc. cbn [app]. rewrite IHa. cbn [count_groups].
-    cbn [N.eqb Pos.eqb g_bar g_backslash g_lparen andb]. rewrite IHd. apply N.add_assoc.
+    cbn [N.eqb Pos.eqb g_bar g_backslash g_lparen g_lbracket g_rbracket andb]. rewrite IHd. apply N.add_assoc.
   - intros r. reflexivity.
   - intros a t r k1 k2 _ IHa _ IHt. rewrite <- app_assoc. rewrite IHa, IHt. apply N.add_assoc.
   - intros a r k _ IH. exact IH.
-  - intros a q r k _ _ IHa Hq. rewrite <- app_assoc. rewrite IHa. rewrite (count_safe q r (Quantifier_safe q Hq)). reflexivity.
+  - intros a q r k _ _ IHa Hq. rewrite <- app_assoc. rewrite IHa. rewrite (count_safe false q r (Quantifier_safe q Hq)). reflexivity.
   - intros a r k _ IH. exact IH.
-  - intros a q r k _ IHa Hq. rewrite <- app_assoc. rewrite IHa. rewrite (count_safe q r (Quantifier_safe q Hq)). reflexivity.
+  - intros a q r k _ IHa Hq. rewrite <- app_assoc. rewrite IHa. rewrite (count_safe false q r (Quantifier_safe q Hq)). reflexivity.
   - intros r. reflexivity.
   - intros r. reflexivity.
   - intros r. reflexivity.
@@ -928,11 +1192,13 @@ Proof.
   - intros d r k _ IH. apply (Hgroup [g_less; g_bang] d r k); [repeat constructor; apply safe_const; reflexivity|exact IH].
   - intros d r k _ IH. apply (Hgroup [g_equals] d r k); [repeat constructor; apply safe_const; reflexivity|exact IH].
   - intros d r k _ IH. apply (Hgroup [g_bang] d r k); [repeat constructor; apply safe_const; reflexivity|exact IH].
-  - intros c r Hc _. apply (count_safe [c]). constructor; [|constructor]. split; intros ->; destruct u; discriminate Hc.
+  - intros c r Hc _. destruct (N.eq_dec c g_rbracket) as [->|Hrb]; [reflexivity|].
+    apply (count_safe false [c]). constructor; [|constructor]. repeat split; try (intros ->; destruct u; discriminate Hc). exact Hrb.
   - intros r. reflexivity.
   - intros w r He _. cbn [app count_groups]. cbn [N.eqb Pos.eqb g_backslash]. apply (AtomEscape_count u np w r He).
   - intros r _ _. reflexivity.
-  - intros d r k Hd IH. cbn [app count_groups]. cbn [N.eqb Pos.eqb g_lparen g_backslash andb].
+  - intros w r Hc. apply (CharacterClass_count u w r Hc).
+  - intros d r k Hd IH. cbn [app count_groups]. cbn [N.eqb Pos.eqb g_lparen g_backslash g_lbracket g_rbracket andb negb].
     assert (Hq : starts_with g_question ((d ++ [g_rparen]) ++ r) = false).
     { destruct (proj1 (grammar_heads u np) d _ k Hd) as [->|Hq]; [reflexivity|]. destruct d as [|q d']; [reflexivity|].
       cbn [app starts_with] in *. exact (noq_not_question' u _ q _ Hq eq_refl). }
@@ -942,7 +1208,7 @@ Qed.
 
 Theorem sp_pattern_sound u l a r : sp_pattern u l = SOk a r -> Pattern u l.
 Proof.
-  unfold sp_pattern. destruct (sp_disjunction u (count_groups l false) (S (length l)) l) as [[] [|c r0]| |] eqn:E; try discriminate.
+  unfold sp_pattern. destruct (sp_disjunction u (count_groups l false false) (S (length l)) l) as [[] [|c r0]| |] eqn:E; try discriminate.
   intros _. apply sp_disjunction_sound in E. destruct E as [d [k [-> Hd]]]. rewrite app_nil_r in *.
   pose proof (proj1 (count_mut u _) d [] k Hd) as Hc. rewrite app_nil_r in Hc. cbn [count_groups] in Hc. rewrite N.add_0_r in Hc.
   exists k. rewrite Hc in Hd. exact Hd.
@@ -1019,66 +1285,52 @@ Lemma sp_hex_esc_not_x u0 c r : (c =? 120) = false -> sp_hex_esc u0 (c :: r) = S
 Proof. intros H. cbn [sp_hex_esc]. rewrite H. reflexivity. Qed.
 Lemma sp_unicode_esc_not_u u0 c r : (c =? 117) = false -> sp_unicode_esc u0 (c :: r) = SOk false (c :: r).
 Proof. intros H. cbn [sp_unicode_esc]. rewrite H. reflexivity. Qed.
-Lemma sp_unicode_esc_complete w r : RegExpUnicodeEscapeSequence u w r -> sp_unicode_esc u (w ++ r) = SOk true r.
+Lemma sp_unicode_esc_complete w r v : RegExpUnicodeEscapeSequence u w r v ->
+  sp_unicode_esc u (w ++ r) = SOk true r /\ unicode_value u (tl (w ++ r)) = v.
 Proof.
-  intros [hs v ts x r0 Hu Hh Hl Ht Hw|hs v r0 Hh Hn|ds v r0 Hu Hd Hv]; cbn [app sp_unicode_esc]; cbn [N.eqb Pos.eqb].
-  - rewrite Hu. rewrite <- app_assoc. cbn [app]. rewrite (sp_surrogate_pair_complete hs v ts x r0 Hh Hl Ht Hw). reflexivity.
+  intros [hs v0 ts x r0 Hu Hh Hl Ht Hw|hs v0 r0 Hh Hn|ds v0 r0 Hu Hd Hv]; cbn [app sp_unicode_esc tl]; cbn [N.eqb Pos.eqb]; unfold unicode_value.
+  - rewrite Hu. rewrite <- app_assoc. cbn [app]. rewrite (sp_surrogate_pair_complete hs v0 ts x r0 Hh Hl Ht Hw). cbn [fst andb].
+    split; [reflexivity|]. rewrite (hex_run_value_spec hs v0 _ Hh).
+    assert (E6 : skipn 6 (hs ++ g_backslash :: 117 :: ts ++ r0) = ts ++ r0).
+    { destruct Hh as [_ Hlen]. destruct hs as [|h1 [|h2 [|h3 [|h4 [|h5 hs]]]]]; try discriminate Hlen. reflexivity. }
+    rewrite E6. rewrite (hex_run_value_spec ts x _ Ht). reflexivity.
   - assert (E1 : (if u then sp_surrogate_pair (hs ++ r0) else (false, hs ++ r0)) = (false, hs ++ r0)).
-    { destruct u eqn:Eu; [|reflexivity]. apply (sp_surrogate_pair_lone hs v r0 Hh). intros Hl. exact (Hn eq_refl Hl). }
-    rewrite E1. unfold sp_fixed_hex. rewrite (Hex4Digits_run hs v r0 Hh). reflexivity.
+    { destruct u eqn:Eu; [|reflexivity]. apply (sp_surrogate_pair_lone hs v0 r0 Hh). intros Hl. exact (Hn eq_refl Hl). }
+    rewrite E1. unfold sp_fixed_hex. rewrite (Hex4Digits_run hs v0 r0 Hh). split; [reflexivity|].
+    assert (E2 : (u && fst (sp_surrogate_pair (hs ++ r0)))%bool = false).
+    { destruct u; [|reflexivity]. rewrite E1. reflexivity. }
+    rewrite E2. reflexivity.
   - rewrite Hu. rewrite <- app_assoc. cbn [app].
     assert (Hrun : hex_run 4 (g_lbrace :: ds ++ g_rbrace :: r0) 0 = None) by reflexivity.
-    unfold sp_surrogate_pair, sp_fixed_hex. rewrite Hrun. rewrite (sp_codepoint_complete ds v r0 Hd Hv). reflexivity.
+    unfold sp_surrogate_pair, sp_fixed_hex. rewrite Hrun. rewrite (sp_codepoint_complete ds v0 r0 Hd Hv). cbn [fst andb tl].
+    split; [reflexivity|]. pose proof (HexDigits_spec ds v0 Hd) as [_ [Hf Hval]]. rewrite (span_hex_app ds _ Hf) by reflexivity. exact Hval.
 Qed.
-Lemma sp_backref_nondigit u0 c r : non_zero_digit c = false -> sp_backref u0 np (c :: r) = SOk false (c :: r).
-Proof. intros H. cbn [sp_backref]. rewrite H. reflexivity. Qed.
-Lemma class_escape_cases c : character_class_escape c = true -> non_zero_digit c = false.
+Lemma is_true_false x : (forall r, x <> SOk true r) -> is_true x = false.
+Proof. destruct x as [[|] r| |]; intros H; try reflexivity. exfalso. exact (H r eq_refl). Qed.
+Lemma sp_ce_complete onp w r v : CharacterEscape u onp w r v -> sp_ce u (w ++ r) = SOk true r /\ ce_value u (w ++ r) = v.
 Proof.
-  unfold character_class_escape. cbn [existsb]. intros H.
-  repeat (apply orb_true_iff in H; destruct H as [H|H]); try discriminate H; apply N.eqb_eq in H; subst c; reflexivity.
-Qed.
-Lemma control_escape_cases c : control_escape c = true -> non_zero_digit c = false.
-Proof.
-  unfold control_escape. cbn [existsb]. intros H.
-  repeat (apply orb_true_iff in H; destruct H as [H|H]); try discriminate H; apply N.eqb_eq in H; subst c; reflexivity.
-Qed.
-Lemma identity_true_nondigit c : identity_escape true c = true -> non_zero_digit c = false.
-Proof.
-  cbn [identity_escape]. unfold syntax_character. cbn [existsb]. intros H.
-  repeat (apply orb_true_iff in H; destruct H as [H|H]); try discriminate H; apply N.eqb_eq in H; subst c; reflexivity.
-Qed.
-Lemma sp_atom_escape_complete w r : AtomEscape u np w r -> sp_atom_escape u np (w ++ r) = SOk true r.
-Proof.
-  intros HA. unfold sp_atom_escape. destruct HA as [ds v r0 HD Hv|c r0 Hc|w0 r0 HC].
-  { rewrite (sp_backref_complete u np ds v r0 HD Hv). reflexivity. }
-  { cbn [app]. rewrite (sp_backref_nondigit u c r0 (class_escape_cases c Hc)). rewrite Hc. reflexivity. }
-  destruct HC as [c r0 Hc|c r0 Hc|r0 Hn|h1 h2 r0 H1 H2|w0 r0 HU|w0 r0 Hu HL Hnd|c r0 Hi Hn].
-  - cbn [app]. rewrite (sp_backref_nondigit u c r0 (control_escape_cases c Hc)).
-    destruct (character_class_escape c); [reflexivity|]. rewrite Hc. reflexivity.
-  - cbn [app]. rewrite sp_backref_nondigit by reflexivity.
-    cbn [character_class_escape control_escape existsb N.eqb Pos.eqb orb andb starts_letter tl]. rewrite Hc. reflexivity.
-  - cbn [app]. rewrite sp_backref_nondigit by reflexivity.
-    cbn [character_class_escape control_escape existsb N.eqb Pos.eqb orb andb].
-    assert (E : starts_digit r0 = false) by (destruct r0 as [|d r1]; [reflexivity|exact Hn]). rewrite E. reflexivity.
-  - cbn [app]. rewrite sp_backref_nondigit by reflexivity.
-    cbn [character_class_escape control_escape existsb N.eqb Pos.eqb orb andb sp_hex_esc].
-    unfold sp_fixed_hex. cbn [hex_run]. rewrite H1, H2. reflexivity.
-  - pose proof (sp_unicode_esc_complete w0 r0 HU) as E.
+  intros HC. destruct HC as [c r0 Hc|c r0 Hc|r0 Hn|h1 h2 r0 H1 H2|w0 r0 v0 HU|w0 r0 v0 Hu HL Hnd|c r0 Hi Hn].
+  - cbn [app sp_ce ce_value]. rewrite Hc. split; reflexivity.
+  - cbn [app sp_ce ce_value]. cbn [control_escape existsb N.eqb Pos.eqb orb andb starts_letter tl hd]. rewrite Hc. split; reflexivity.
+  - cbn [app sp_ce ce_value]. cbn [control_escape existsb N.eqb Pos.eqb orb andb].
+    assert (E : starts_digit r0 = false) by (destruct r0 as [|d r1]; [reflexivity|exact Hn]). rewrite E. split; reflexivity.
+  - cbn [app sp_ce ce_value]. cbn [control_escape existsb N.eqb Pos.eqb orb andb sp_hex_esc].
+    unfold sp_fixed_hex, hex_run_value. cbn [hex_run]. rewrite H1, H2. cbn [is_true]. split; [reflexivity|].
+    rewrite N.mul_0_r, N.add_0_l. reflexivity.
+  - destruct (sp_unicode_esc_complete w0 r0 v0 HU) as [E Ev].
     assert (Hw : exists w', w0 = 117 :: w') by (destruct HU; eexists; reflexivity). destruct Hw as [w' ->].
-    cbn [app] in *. rewrite sp_backref_nondigit by reflexivity.
-    cbn [character_class_escape control_escape existsb N.eqb Pos.eqb orb andb].
-    rewrite sp_hex_esc_not_x by reflexivity. rewrite E. reflexivity.
-  - rewrite (sp_backref_skip u np (w0 ++ r0) (or_introl Hu) Hnd).
-    destruct (LegacyOctal_head w0 r0 HL) as [a [w' [-> [Ha Hz]]]]. cbn [app] in *.
-    destruct (octal_not_special a Ha) as [Ecl [Eco [E99 [E120 [E117 _]]]]]. rewrite Ecl, Eco, E99. cbn [andb]. rewrite Hz.
-    rewrite sp_hex_esc_not_x by exact E120. rewrite sp_unicode_esc_not_u by exact E117. rewrite Hu.
-    change (a :: w' ++ r0) with ((a :: w') ++ r0). rewrite (sp_legacy_octal_complete _ _ HL). reflexivity.
-  - cbn [app]. destruct u eqn:Eu.
-    + rewrite (sp_backref_nondigit true c r0 (identity_true_nondigit c Hi)).
-      destruct (identity_true_cases c Hi) as [Ecl [Eco [E99 [E48 [E120 [E117 _]]]]]]. rewrite Ecl, Eco, E99, E48. cbn [andb].
-      rewrite sp_hex_esc_not_x by exact E120. rewrite sp_unicode_esc_not_u by exact E117. rewrite Hi. reflexivity.
-    + destruct (Hn eq_refl) as [Hne Hnd]. rewrite (sp_backref_skip false np (c :: r0) (or_introl eq_refl) Hnd).
-      destruct (character_class_escape c) eqn:Ecl; [reflexivity|]. destruct (control_escape c) eqn:Eco; [reflexivity|].
+    cbn [app] in *. cbn [sp_ce ce_value]. cbn [control_escape existsb N.eqb Pos.eqb orb andb].
+    rewrite sp_hex_esc_not_x by reflexivity. rewrite E. cbn [is_true tl] in *. split; [reflexivity|exact Ev].
+  - destruct (LegacyOctal_head w0 r0 _ HL) as [a [w' [-> [Ha Hz]]]]. cbn [app] in *. cbn [sp_ce ce_value].
+    destruct (octal_not_special a Ha) as [Ecl [Eco [E99 [E120 [E117 _]]]]]. rewrite Eco, E99. cbn [andb]. rewrite Hz.
+    rewrite sp_hex_esc_not_x by exact E120. rewrite sp_unicode_esc_not_u by exact E117. rewrite Hu. cbn [is_true negb andb].
+    change (a :: w' ++ r0) with ((a :: w') ++ r0). destruct (sp_legacy_octal_complete _ _ _ HL) as [E Ev]. rewrite E, Ha.
+    split; [reflexivity|exact Ev].
+  - cbn [app sp_ce ce_value]. destruct u eqn:Eu.
+    + destruct (identity_true_cases c Hi) as [Ecl [Eco [E99 [E48 [E120 [E117 _]]]]]]. rewrite Eco, E99, E48. cbn [andb].
+      rewrite sp_hex_esc_not_x by exact E120. rewrite sp_unicode_esc_not_u by exact E117. rewrite Hi. cbn [is_true negb andb].
+      split; reflexivity.
+    + destruct (Hn eq_refl) as [Eco [Hne Hnd]]. rewrite Eco.
       cbn [identity_escape] in Hi. apply negb_true_iff in Hi. rewrite Hi. cbn [andb].
       assert (Eoct : octal_digit c = false) by (destruct (octal_digit c) eqn:Eo; [exfalso; apply Hne; left; exact Eo|reflexivity]).
       assert (E48 : (c =? 48) = false) by (apply N.eqb_neq; intros ->; discriminate Eoct). rewrite E48. cbn [andb].
@@ -1094,20 +1346,157 @@ Proof.
         cbn [sp_unicode_esc N.eqb Pos.eqb]. unfold sp_fixed_hex. destruct (hex_run 4 r0 0) as [[v r1]|] eqn:E; [|reflexivity].
         exfalso. apply Hne. right. right. split; [reflexivity|]. apply run_Hex4Digits in E. destruct E as [hs [-> Hh]].
         exists hs, v, r1. split; [exact Hh|reflexivity]. }
-      rewrite Eu'. cbn [sp_legacy_octal]. rewrite Eoct. cbn [identity_escape]. rewrite Hi. reflexivity.
+      rewrite Eu'. cbn [sp_legacy_octal is_true negb andb]. rewrite Eoct. cbn [identity_escape]. rewrite Hi. split; reflexivity.
+Qed.
+Lemma sp_backref_nondigit u0 c r : non_zero_digit c = false -> sp_backref u0 np (c :: r) = SOk false (c :: r).
+Proof. intros H. cbn [sp_backref]. rewrite H. reflexivity. Qed.
+Lemma class_escape_cases c : character_class_escape c = true -> non_zero_digit c = false.
+Proof.
+  unfold character_class_escape. cbn [existsb]. intros H.
+  repeat (apply orb_true_iff in H; destruct H as [H|H]); try discriminate H; apply N.eqb_eq in H; subst c; reflexivity.
+Qed.
+Lemma control_escape_cases c : control_escape c = true -> non_zero_digit c = false /\ character_class_escape c = false.
+Proof.
+  unfold control_escape. cbn [existsb]. intros H.
+  repeat (apply orb_true_iff in H; destruct H as [H|H]); try discriminate H; apply N.eqb_eq in H; subst c; split; reflexivity.
+Qed.
+Lemma identity_true_nondigit c : identity_escape true c = true -> non_zero_digit c = false.
+Proof.
+  cbn [identity_escape]. unfold syntax_character. cbn [existsb]. intros H.
+  repeat (apply orb_true_iff in H; destruct H as [H|H]); try discriminate H; apply N.eqb_eq in H; subst c; reflexivity.
+Qed.
+Lemma sp_atom_escape_complete w r : AtomEscape u np w r -> sp_atom_escape u np (w ++ r) = SOk true r.
+Proof.
+  intros HA. rewrite sp_atom_escape_split. destruct HA as [ds v r0 HD Hv|c r0 Hc|w0 r0 v0 HC].
+  { rewrite (sp_backref_complete u np ds v r0 HD Hv). reflexivity. }
+  { cbn [app]. rewrite (sp_backref_nondigit u c r0 (class_escape_cases c Hc)). cbn [sp_cce]. rewrite Hc. reflexivity. }
+  destruct (sp_ce_complete (Some np) w0 r0 v0 HC) as [Ece _].
+  assert (Eb : sp_backref u np (w0 ++ r0) = SOk false (w0 ++ r0)).
+  { destruct HC as [c r0 Hc|c r0 Hc|r0 Hn|h1 h2 r0 H1 H2|w0 r0 v0 HU|w0 r0 v0 Hu HL Hnd|c r0 Hi Hn].
+    - apply sp_backref_nondigit. apply (control_escape_cases c Hc).
+    - apply sp_backref_nondigit. reflexivity.
+    - apply sp_backref_nondigit. reflexivity.
+    - apply sp_backref_nondigit. reflexivity.
+    - assert (Hw : exists w', w0 = 117 :: w') by (destruct HU; eexists; reflexivity). destruct Hw as [w' ->].
+      apply sp_backref_nondigit. reflexivity.
+    - apply (sp_backref_skip u np _ (or_introl Hu) Hnd).
+    - cbn [app]. destruct u eqn:Eu; [apply sp_backref_nondigit; apply (identity_true_nondigit c Hi)|].
+      apply (sp_backref_skip false np _ (or_introl eq_refl)). apply (Hn eq_refl). }
+  rewrite Eb.
+  destruct (sp_cce (w0 ++ r0)) as [[|] r1| |] eqn:Ec; try (destruct (w0 ++ r0) as [|x l']; cbn [sp_cce] in Ec; [discriminate Ec|destruct (character_class_escape x); discriminate Ec]).
+  - (* a unit that is also a CharacterClassEscape: the same text *)
+    apply sp_cce_sound in Ec. destruct Ec as [[_ [c [E Hc]]]|[Ec _]]; [|discriminate].
+    destruct (CharacterEscape_head u _ w0 r0 v0 HC) as [x [w' [-> Hx]]]. cbn [app] in E. injection E as <- E.
+    destruct w' as [|y w'']; [cbn [app] in E; subst r1; reflexivity|].
+    destruct (Hx ltac:(discriminate)) as [_ [Hcl _]]. congruence.
+  - rewrite Ece. reflexivity.
 Qed.
 Lemma AtomEscape_head w r : AtomEscape u np w r -> exists x w', w = x :: w' /\ (w' <> [] -> assertion_escape x = false).
 Proof.
-  intros [ds v r0 HD _|c r0 Hc|w0 r0 HC].
+  intros [ds v r0 HD _|c r0 Hc|w0 r0 v0 HC].
   - destruct (DecimalEscape_run ds v r0 HD) as [_ [_ [d [ds' [-> Hd]]]]]. exists d, ds'. split; [reflexivity|]. intros _.
     unfold non_zero_digit in Hd. apply andb_true_iff in Hd. destruct Hd as [_ Hd]. apply N.leb_le in Hd.
     unfold assertion_escape. apply orb_false_iff. split; apply N.eqb_neq; lia.
   - exists c, []. split; [reflexivity|intros H; contradiction].
-  - destruct HC as [c r0 Hc|c r0 Hc|r0 Hn|h1 h2 r0 H1 H2|w0 r0 HU|w0 r0 Hu HL Hnd|c r0 Hi Hn];
-      try (eexists; eexists; split; [reflexivity|intros H; first [contradiction|reflexivity]]).
-    + destruct HU; eexists; eexists; (split; [reflexivity|intros _; reflexivity]).
-    + destruct (LegacyOctal_head w0 r0 HL) as [a [w' [-> [Ha _]]]]. exists a, w'. split; [reflexivity|]. intros _.
-      apply (octal_not_special a Ha).
+  - destruct (CharacterEscape_head u _ w0 r0 v0 HC) as [x [w' [-> Hx]]]. exists x, w'. split; [reflexivity|].
+    intros H. apply (Hx H).
+Qed.
+
+(* classes *)
+Definition cstop (r : list N) : Prop := exists r', r = g_rbracket :: r'.
+Lemma sp_class_escape_complete w r ov : ClassEscape u w r ov -> sp_class_escape u (w ++ r) = SOk (Some ov) r.
+Proof.
+  intros [r0|r0 Hu|c r0 Hu Hc|c r0 Hc|w0 r0 v HC Hside].
+  - reflexivity.
+  - cbn [app sp_class_escape N.eqb Pos.eqb]. rewrite Hu. reflexivity.
+  - cbn [app sp_class_escape N.eqb Pos.eqb]. rewrite Hu, Hc. cbn [negb andb]. reflexivity.
+  - cbn [app sp_class_escape]. assert (Hn : (c =? 98) = false /\ (c =? 45) = false /\ (c =? 99) = false).
+    { unfold character_class_escape in Hc. cbn [existsb] in Hc.
+      repeat (apply orb_true_iff in Hc; destruct Hc as [Hc|Hc]); try discriminate Hc; apply N.eqb_eq in Hc; subst c; repeat split. }
+    destruct Hn as [-> [-> ->]]. destruct u; cbn [negb andb sp_cce]; rewrite Hc; reflexivity.
+  - destruct (sp_ce_complete None w0 r0 v HC) as [Ece Ev].
+    destruct (CharacterEscape_head u _ w0 r0 v HC) as [x [w' [-> Hx]]]. cbn [app] in *. cbn [sp_class_escape].
+    assert (Hb : x <> 98 /\ character_class_escape x = false).
+    { destruct w' as [|y w'']; [apply Hside; reflexivity|]. destruct (Hx ltac:(discriminate)) as [H1 [H2 _]]. split; assumption. }
+    destruct Hb as [Hb Hcl]. apply N.eqb_neq in Hb. rewrite Hb.
+    destruct (CharacterEscape_first u _ _ _ _ HC x w' eq_refl) as [Hf1 Hf2].
+    assert (Hd : (u && (x =? 45))%bool = false).
+    { destruct u eqn:Eu; [|reflexivity]. cbn [andb]. apply N.eqb_neq. apply Hf1. reflexivity. }
+    rewrite Hd.
+    assert (Hc : (negb u && (x =? 99) && match w' ++ r0 with d :: _ => class_control_letter d | [] => false end)%bool = false).
+    { destruct (negb u); [|reflexivity]. cbn [andb]. destruct (N.eqb_spec x 99) as [Hx99|_]; [|reflexivity]. cbn [andb].
+      destruct (Hf2 Hx99) as [c [-> Hcl']]. cbn [app]. unfold class_control_letter. unfold control_letter in Hcl'. unfold decimal_digit.
+      apply orb_true_iff in Hcl'. destruct Hcl' as [Hcl'|Hcl']; apply andb_true_iff in Hcl'; destruct Hcl' as [Hl1 Hl2];
+        apply N.leb_le in Hl1, Hl2; apply orb_false_iff; split; try (apply N.eqb_neq; lia);
+        apply andb_false_iff; right; apply N.leb_gt; lia. }
+    rewrite Hc. cbn [sp_cce]. rewrite Hcl. rewrite Ece, Ev. reflexivity.
+Qed.
+Lemma sp_class_atom_complete a r ov : ClassAtom u a r ov -> sp_class_atom u (a ++ r) = SOk (Some ov) r.
+Proof.
+  intros [r0|w0 r0 v0 [c r1 H1 H2 H3|w1 r1 v1 HE|r1 Hu Hl]].
+  - reflexivity.
+  - cbn [app sp_class_atom]. apply N.eqb_neq in H1, H2. rewrite H1, H2. reflexivity.
+  - cbn [app sp_class_atom N.eqb Pos.eqb g_backslash negb andb]. rewrite (sp_class_escape_complete w1 r1 v1 HE). reflexivity.
+  - cbn [app sp_class_atom N.eqb Pos.eqb g_backslash negb andb]. rewrite Hu.
+    assert (E : sp_class_escape false (99 :: r1) = SOk None (99 :: r1)).
+    { cbn [sp_class_escape N.eqb Pos.eqb negb andb]. destruct r1 as [|d r2].
+      - reflexivity.
+      - destruct Hl as [Hl1 Hl2]. rewrite Hl1. cbn [sp_cce character_class_escape existsb N.eqb Pos.eqb orb sp_ce control_escape andb starts_letter].
+        rewrite Hl2. cbn [andb N.eqb Pos.eqb sp_hex_esc sp_unicode_esc sp_legacy_octal octal_digit N.leb N.compare Pos.compare Pos.compare_cont identity_escape negb].
+        reflexivity. }
+    rewrite E. reflexivity.
+Qed.
+Definition P_CR (w r : list N) : Prop := forall g, cstop r -> (length (w ++ r) < g)%nat -> sp_class_ranges u g (w ++ r) = SOk tt r.
+Definition P_NCRN (w r : list N) : Prop := P_CR w r /\ (starts_with 45 (w ++ r) = true -> w = [45]).
+Lemma cstop_atom r : cstop r -> sp_class_atom u r = SOk None r /\ starts_with 45 r = false.
+Proof. intros [r' ->]. split; reflexivity. Qed.
+Lemma class_ranges_complete :
+  (forall w r, ClassRanges u w r -> P_CR w r) /\ (forall w r, NonemptyClassRanges u w r -> P_CR w r) /\
+  (forall w r, NonemptyClassRangesNoDash u w r -> P_NCRN w r).
+Proof.
+  assert (Hlast : forall a r v g, ClassAtom u a r v -> cstop r -> (length (a ++ r) < g)%nat -> sp_class_ranges u g (a ++ r) = SOk tt r).
+  { intros a r v g Ha Hs Hg. destruct g as [|g]; [lia|]. cbn [sp_class_ranges]. rewrite (sp_class_atom_complete a r v Ha).
+    destruct (cstop_atom r Hs) as [E1 E2]. rewrite E2. destruct g as [|g].
+    - destruct (ClassAtom_nonempty u a r v Ha) as [x [a' [-> _]]]. cbn [app length] in Hg. lia.
+    - cbn [sp_class_ranges]. rewrite E1. reflexivity. }
+  assert (Hmore : forall a b r v g, ClassAtom u a (b ++ r) v -> P_NCRN b r -> cstop r -> (length ((a ++ b) ++ r) < g)%nat ->
+            sp_class_ranges u g ((a ++ b) ++ r) = SOk tt r).
+  { intros a b r v g Ha [IHb Hdash] Hs Hg. destruct g as [|g]; [lia|]. cbn [sp_class_ranges]. rewrite <- app_assoc.
+    rewrite (sp_class_atom_complete a (b ++ r) v Ha).
+    destruct (ClassAtom_nonempty u a _ v Ha) as [x [a' [-> _]]]. rewrite <- app_assoc in Hg. cbn [app length] in Hg.
+    destruct (starts_with 45 (b ++ r)) eqn:Ed.
+    - rewrite (Hdash eq_refl). cbn [app tl]. destruct (cstop_atom r Hs) as [E1 _]. rewrite E1. reflexivity.
+    - apply IHb; [exact Hs|rewrite app_length in Hg; lia]. }
+  assert (Hrange : forall a b c r va vb g, ClassAtom u a (45 :: b ++ c ++ r) va -> ClassAtom u b (c ++ r) vb -> P_CR c r ->
+            range_ok u va vb -> cstop r -> (length ((a ++ 45%N :: b ++ c) ++ r) < g)%nat ->
+            sp_class_ranges u g ((a ++ 45 :: b ++ c) ++ r) = SOk tt r).
+  { intros a b c r va vb g Ha Hb IHc Hok Hs Hg. destruct g as [|g]; [lia|]. cbn [sp_class_ranges].
+    rewrite <- app_assoc. cbn [app]. rewrite <- app_assoc. rewrite (sp_class_atom_complete a _ va Ha). cbn [starts_with N.eqb Pos.eqb tl].
+    rewrite (sp_class_atom_complete b _ vb Hb). rewrite (proj2 (range_ok_b_spec u va vb) Hok).
+    apply IHc; [exact Hs|]. rewrite <- app_assoc in Hg. cbn [app] in Hg. rewrite <- app_assoc in Hg.
+    destruct (ClassAtom_nonempty u a _ va Ha) as [x [a' [-> _]]]. cbn [app length] in Hg. rewrite !app_length in Hg. cbn [length] in Hg.
+    rewrite !app_length in Hg. rewrite app_length. lia. }
+  apply class_ranges_mutind.
+  - intros r g Hs Hg. destruct g as [|g]; [lia|]. cbn [app sp_class_ranges]. rewrite (proj1 (cstop_atom r Hs)). reflexivity.
+  - intros w r _ IH. exact IH.
+  - intros a r v Ha g Hs Hg. exact (Hlast a r v g Ha Hs Hg).
+  - intros a b r v Ha _ IHb g Hs Hg. exact (Hmore a b r v g Ha IHb Hs Hg).
+  - intros a b c r va vb Ha Hb _ IHc Hok g Hs Hg. exact (Hrange a b c r va vb g Ha Hb IHc Hok Hs Hg).
+  - intros a r v Ha. split; [intros g Hs Hg; exact (Hlast a r v g Ha Hs Hg)|].
+    intros Hd. destruct Ha as [r0|w0 r0 v0 Hn]; [reflexivity|].
+    destruct (ClassAtomNoDash_head u _ _ _ Hn) as [x [w' [-> [Hx _]]]]. cbn [app starts_with] in Hd. apply N.eqb_eq in Hd. contradiction.
+  - intros a b r v Ha _ IHb. split; [intros g Hs Hg; exact (Hmore a b r v g (CA_no_dash u a _ v Ha) IHb Hs Hg)|].
+    intros Hd. destruct (ClassAtomNoDash_head u _ _ _ Ha) as [x [w' [-> [Hx _]]]]. cbn [app starts_with] in Hd. apply N.eqb_eq in Hd. contradiction.
+  - intros a b c r va vb Ha Hb _ IHc Hok. split; [intros g Hs Hg; exact (Hrange a b c r va vb g (CA_no_dash u a _ va Ha) Hb IHc Hok Hs Hg)|].
+    intros Hd. destruct (ClassAtomNoDash_head u _ _ _ Ha) as [x [w' [-> [Hx _]]]]. cbn [app starts_with] in Hd. apply N.eqb_eq in Hd. contradiction.
+Qed.
+Lemma sp_class_complete w r : CharacterClass u w r -> sp_class u (w ++ r) = SOk true r.
+Proof.
+  intros [w0 r0 Hc Hw|w0 r0 Hw]; cbn [app sp_class N.eqb Pos.eqb g_lbracket]; rewrite <- app_assoc; cbn [app].
+  - assert (E : starts_with g_caret (w0 ++ g_rbracket :: r0) = false).
+    { destruct w0 as [|x w']; [reflexivity|]. cbn [app starts_with]. apply N.eqb_neq. exact Hc. }
+    rewrite E. rewrite (proj1 class_ranges_complete w0 _ Hw); [reflexivity|exists r0; reflexivity|lia].
+  - cbn [starts_with N.eqb Pos.eqb g_caret tl]. rewrite (proj1 class_ranges_complete w0 _ Hw); [reflexivity|exists r0; reflexivity|lia].
 Qed.
 
 Lemma completeness_mut :
@@ -1180,10 +1569,10 @@ Proof.
     + cbn. reflexivity.
   - (* At_char *) intros c r Hc Hib f _. cbn [app].
     assert (Hn : (c =? g_dot) = false /\ (c =? g_backslash) = false /\ (c =? g_lparen) = false /\
-                 (c =? g_caret) = false /\ (c =? g_dollar) = false).
+                 (c =? g_caret) = false /\ (c =? g_dollar) = false /\ (c =? g_lbracket) = false).
     { repeat split; apply N.eqb_neq; intros ->; destruct u; discriminate Hc. }
-    destruct Hn as [H1 [H2 [H3 [H4 H5]]]]. split.
-    + cbn [sp_atom]. rewrite H1, H2, H3. destruct u eqn:Eu; [cbn [pattern_char] in Hc; rewrite Hc; reflexivity|].
+    destruct Hn as [H1 [H2 [H3 [H4 [H5 H6]]]]]. split.
+    + cbn [sp_atom]. rewrite H1, H2, H6, H3. destruct u eqn:Eu; [cbn [pattern_char] in Hc; rewrite Hc; reflexivity|].
       rewrite sp_brq_noerr_none.
       * cbn [pattern_char] in Hc. rewrite Hc. reflexivity.
       * destruct (sp_braced (c :: r)) as [[[n om] r']|] eqn:Eb; [|reflexivity].
@@ -1201,6 +1590,10 @@ Proof.
     unfold sp_atom_escape. cbn [character_class_escape control_escape existsb N.eqb Pos.eqb orb andb].
     assert (E : starts_letter r = false) by (destruct r as [|d r1]; [reflexivity|exact Hl]). rewrite E.
     reflexivity.
+  - (* At_class *) intros w r Hc f _. split.
+    + assert (Hw : exists w', w = g_lbracket :: w') by (destruct Hc; eexists; reflexivity). destruct Hw as [w' ->].
+      pose proof (sp_class_complete _ r Hc) as E. cbn [app] in *. cbn [sp_atom]. cbn [N.eqb Pos.eqb g_dot g_backslash g_lbracket]. exact E.
+    + destruct Hc; reflexivity.
   - (* At_group *) intros d r k Hd IHd f Hlen.
     pose proof (proj1 (grammar_heads u np) d _ k Hd) as Hqd.
     cbn [app sp_atom sp_assertion]. rewrite app_comm_cons'. cbn [N.eqb Pos.eqb negb syntax_character existsb orb].
